@@ -148,6 +148,7 @@ def _indent(s, n=4):
 
 NEGATIVES = [
     ("result_and_no_log", "#[handler(result, no_log)]\n        pub async fn h(&mut self, _m: M, _r: &ActorRef<Self>) -> Result<u32, String> { Ok(1) }", "mutually exclusive"),
+    ("no_log_and_result", "#[handler(no_log, result)]\n        pub async fn h(&mut self, _m: M, _r: &ActorRef<Self>) -> Result<u32, String> { Ok(1) }", "mutually exclusive"),
     ("unknown_option", "#[handler(verbose)]\n        pub async fn h(&mut self, _m: M, _r: &ActorRef<Self>) -> u32 { 1 }", "unknown handler option"),
     ("result_without_return", "#[handler(result)]\n        pub async fn h(&mut self, _m: M, _r: &ActorRef<Self>) { }", "requires a return type"),
     ("not_async", "#[handler]\n        pub fn h(&mut self, _m: M, _r: &ActorRef<Self>) -> u32 { 1 }", "must be async"),
